@@ -2381,6 +2381,33 @@ def _c20_types(o, d, z):
         ("moon.azimuth", lambda: moon.azimuth(o, dt), "float"), ("moon.elevation", lambda: moon.elevation(o, dt), "float"),
         ("phase", lambda: moon.phase(d), "float"),
     ]
+    # the same functions with the date omitted and the zone given by NAME (every accepted spelling
+    # of the arguments has to reach the same documented outcomes)
+    zn = "Pacific/Auckland"
+    R, S_ = SunDirection.RISING, SunDirection.SETTING
+    lst += [
+        ("dawn(date omitted, zone name)", lambda: sun.dawn(o, tzinfo=zn), "dt"),
+        ("dusk(date omitted, zone name)", lambda: sun.dusk(o, None, 12, zn), "dt"),
+        ("sunrise(date omitted, zone name)", lambda: sun.sunrise(o, tzinfo=zn), "dt"),
+        ("sunset(date omitted, zone name)", lambda: sun.sunset(o, tzinfo=zn), "dt"),
+        ("noon(date omitted, zone name)", lambda: sun.noon(o, tzinfo=zn), "dt"),
+        ("midnight(date omitted, zone name)", lambda: sun.midnight(o, tzinfo=zn), "dt"),
+        ("daylight(date omitted, zone name)", lambda: sun.daylight(o, tzinfo=zn), "pair"),
+        ("night(date omitted, zone name)", lambda: sun.night(o, tzinfo=zn), "pair"),
+        ("twilight(date omitted, zone name)", lambda: sun.twilight(o, direction=S_, tzinfo=zn), "pair"),
+        ("golden_hour(date omitted, zone name)", lambda: sun.golden_hour(o, direction=R, tzinfo=zn), "pair"),
+        ("blue_hour(date omitted, zone name)", lambda: sun.blue_hour(o, direction=S_, tzinfo=zn), "pair"),
+        ("rahukaalam(date omitted, zone name)", lambda: sun.rahukaalam(o, tzinfo=zn), "pair"),
+        ("sun(date omitted, zone name)", lambda: sun.sun(o, tzinfo=zn), "dict"),
+        ("time_at_elevation(date omitted, zone name)",
+         lambda: sun.time_at_elevation(o, 3.0, direction=S_, tzinfo=zn), "dt"),
+        ("moonrise(date omitted, zone name)", lambda: moon.moonrise(o, tzinfo=zn), "optdt"),
+        ("moonset(date omitted, zone name)", lambda: moon.moonset(o, tzinfo=zn), "optdt"),
+        ("elevation(time omitted)", lambda: sun.elevation(o), "float"),
+        ("azimuth(time omitted)", lambda: sun.azimuth(o), "float"),
+        ("zenith(time omitted)", lambda: sun.zenith(o), "float"),
+        ("moon.phase(date omitted)", lambda: moon.phase(), "float"),
+    ]
     for name, f, kind in lst:
         r = chk(name, f, kind)
         if r:
